@@ -1,4 +1,69 @@
-//! LEX suite (stub)
-pub fn lex_case(_f: &[&str]) -> String {
-    "UNIMPLEMENTED".to_string()
+//! LEX suite: runs `garnish_lang_compiler::lex::lex` on the unescaped text of the case.
+//! Case:   LEX \t id \t <escaped text>
+//! Result: `ok` then per token `\tTypeName,row,col,<escaped token text>` | `err`
+//!         (a panic inside the lexer is reported as `PANIC file:line` by main.rs)
+//!
+//! CHARCLASS suite: dumps the Unicode predicate tables of the Rust std the lexer is compiled against.
+//! Case:   CHARCLASS \t id \t <predicate>      (predicate: alphanumeric | numeric | alphabetic | whitespace | ascii_whitespace)
+//! Result: maximal ranges of scalar values where the predicate holds: `lo-hi,lo-hi,...` (hex, inclusive)
+//! Until `CHARCLASS` is registered in main.rs the same dump is reachable as `LEX \t id \t <ignored> \t CHARCLASS \t <predicate>`.
+use crate::esc::{escape, unescape};
+use garnish_lang_compiler::lex::lex;
+
+pub fn lex_case(f: &[&str]) -> String {
+    if f.len() >= 5 && f[3] == "CHARCLASS" {
+        return charclass_case(f);
+    }
+    let text = unescape(f.get(2).copied().unwrap_or(""));
+    match lex(&text) {
+        Err(_) => "err".to_string(),
+        Ok(tokens) => {
+            let mut out = String::from("ok");
+            for t in tokens {
+                out.push('\t');
+                out.push_str(&format!(
+                    "{:?},{},{},{}",
+                    t.get_token_type(),
+                    t.get_line(),
+                    t.get_column(),
+                    escape(t.get_text())
+                ));
+            }
+            out
+        }
+    }
+}
+
+/// predicate name is the last field (works for both the registered and the LEX-routed form)
+pub fn charclass_case(f: &[&str]) -> String {
+    let pred: fn(char) -> bool = match f.last().copied().unwrap_or("") {
+        "alphanumeric" => |c| c.is_alphanumeric(),
+        "numeric" => |c| c.is_numeric(),
+        "alphabetic" => |c| c.is_alphabetic(),
+        "whitespace" => |c| c.is_whitespace(),
+        "ascii_whitespace" => |c| c.is_ascii_whitespace(),
+        p => return format!("BAD-PREDICATE {}", p),
+    };
+    let mut ranges: Vec<(u32, u32)> = vec![];
+    let mut open: Option<(u32, u32)> = None;
+    for u in 0..=0x10FFFFu32 {
+        // surrogates are not chars: they break a range
+        let holds = match char::from_u32(u) {
+            Some(c) => pred(c),
+            None => false,
+        };
+        match (holds, open) {
+            (true, Some((lo, _))) => open = Some((lo, u)),
+            (true, None) => open = Some((u, u)),
+            (false, Some(r)) => {
+                ranges.push(r);
+                open = None;
+            }
+            (false, None) => {}
+        }
+    }
+    if let Some(r) = open {
+        ranges.push(r);
+    }
+    ranges.iter().map(|(a, b)| format!("{:x}-{:x}", a, b)).collect::<Vec<_>>().join(",")
 }
